@@ -82,5 +82,25 @@ Wraps(x) ==
       Grid(T("3.0"), <<>>, <<Col(a, <<>>), Col(b, <<>>)>>, <<<<<<b, x>>>>, <<<<a, x>>, <<b, Null>>>>, <<>>>>),
       Grid(T("3.0"), <<<<T("m"), Marker>>, <<T("n"), x>>>>, <<Col(a, <<>>)>>, <<<<<<a, Marker>>>>>>) }
 
+\* Name family: tags, columns and meta tags named like the members the codecs themselves use (Hayson's val / unit / meta /
+\* cols / rows / ver / dis / tz / lat / lng / type / name / kind, Zinc's ver), in every place a name can stand, and the
+\* kind-less dicts that look like a Hayson scalar object. They enter the universes at depth MaxDepth (never wrapped).
+CodecNames == {T("ver"), T("meta"), T("cols"), T("rows"), T("val"), T("unit"), T("name"), T("dis"), T("tz"), T("lat"), T("lng"),
+               T("type"), T("kind"), T("id"), T("def"), T("is")}
+NameFamily ==
+    {Dict(<<<<nm, One>>>>) : nm \in CodecNames}
+    \cup {Dict(<<<<nm, Str(T("x"))>>>>) : nm \in CodecNames}
+    \cup {Grid(T("3.0"), <<>>, <<Col(a, <<<<nm, One>>>>)>>, <<<<<<a, One>>>>>>) : nm \in CodecNames}
+    \cup {Grid(T("3.0"), <<>>, <<Col(nm, <<>>)>>, <<<<<<nm, Str(T("x"))>>>>>>) : nm \in CodecNames}
+    \cup {Grid(T("3.0"), <<<<nm, Marker>>>>, <<Col(a, <<>>)>>, <<>>) : nm \in CodecNames \ {T("ver")}}
+    \cup {Dict(<<<<T("unit"), Str(T("m"))>>, <<T("val"), One>>>>), Dict(<<<<T("lat"), One>>, <<T("lng"), One>>>>),
+          Dict(<<<<T("type"), Str(T("Bin"))>>, <<T("val"), Str(T("y"))>>>>), Dict(<<<<T("dis"), Str(T("d"))>>, <<T("val"), Str(T("x"))>>>>),
+          Dict(<<<<T("tz"), Str(T("UTC"))>>, <<T("val"), Str(T("2021-01-01T00:00:00Z"))>>>>),
+          Dict(<<<<T("cols"), List(<<>>)>>, <<T("meta"), Dict(<<>>)>>, <<T("rows"), List(<<>>)>>>>),
+          Dict(<<<<T("kind"), Str(T("number"))>>, <<T("val"), One>>>>)}
+    \* grids of another format version (the version is a component of the value like any other)
+    \cup {Grid(T("2.0"), <<>>, <<Col(a, <<>>)>>, <<<<<<a, One>>>>>>), Grid(T("2.0"), <<<<T("m"), One>>>>, <<Col(a, <<>>)>>, <<>>),
+          Grid(<<>>, <<>>, <<Col(a, <<>>)>>, <<>>), Grid(<<51, 34, 233>>, <<>>, <<Col(a, <<>>)>>, <<>>)}
+
 AllUnits == {u[1] : u \in Units \ {<<>>}}
 =============================================================================
